@@ -469,3 +469,16 @@ Proof.
   pose proof (parseTokens_fuel s toks (front_tokens_wf o s toks F0) (o_builtin o)) as H.
   destruct (parseTokens (lenN s) (o_builtin o) toks); try discriminate. contradiction.
 Qed.
+
+(** tokenizer + parser model: terminates, never panics, every error in range *)
+Theorem parseTLFile_total o s :
+  match parseTLFile o s with
+  | PR_ok => True
+  | PR_err _ e => err_in_range s e
+  | PR_panic => False
+  | PR_nofuel => False
+  end.
+Proof.
+  pose proof (parseTLFile_safe o s) as H. pose proof (parseTLFile_fuel o s) as Hf.
+  destruct (parseTLFile o s); auto.
+Qed.
